@@ -119,6 +119,7 @@ class Run:
         self.distinct = set()
         self.violations = 0
         self.known_hits = []
+        self.apalache = None
 
     # ---- MC + GEN ------------------------------------------------------------------
     def run_mc(self, job):
@@ -268,6 +269,24 @@ class Run:
                     self.samples.append({"kind": job["driver"], "history_prefix": h})
             os.remove(tmp)
 
+    def run_apalache(self):
+        """unbounded check of the cursor / margin arithmetic (spec/CursorGeom.tla): IndInv is inductive"""
+        out = os.path.join(self.wd, "apalache")
+        res = []
+        for args, what in ((["--init=Init", "--inv=IndInv", "--length=0"], "Init => IndInv"),
+                           (["--init=IndInit", "--inv=IndInv", "--length=1"], "IndInv /\\ Next => IndInv'")):
+            t0 = time.time()
+            try:
+                r = subprocess.run(["apalache-mc", "check"] + args + ["--out-dir=" + out, "CursorGeom.tla"], cwd=SPEC,
+                                   stdout=subprocess.PIPE, stderr=subprocess.STDOUT, text=True, timeout=900)
+            except subprocess.TimeoutExpired:
+                raise ToolError("apalache-mc timed out")
+            if "The outcome is: NoError" not in r.stdout:
+                raise ToolError("Apalache does not confirm the inductive cursor invariant (%s):\n%s" % (what, r.stdout[-2500:]))
+            res.append({"obligation": what, "outcome": "NoError", "wall_s": round(time.time() - t0, 1)})
+        shutil.rmtree(out, ignore_errors=True)
+        self.apalache = res
+
     # ---- replay on the implementation ----------------------------------------------
     def replay_shard(self, k):
         hist, trace = self.hist[k], os.path.join(self.wd, "trace-%d.ndjson" % k)
@@ -341,6 +360,8 @@ class Run:
         for job in self.plan.get("mc", []):
             if job.get("tiers", ("quick", "thorough")).__contains__(self.tier):
                 self.run_mc(job)
+        if self.plan.get("apalache"):
+            self.run_apalache()
         for job in self.plan.get("gen", []):
             if job["count"].get(self.tier, 0) > 0:
                 self.run_gen(job)
@@ -431,6 +452,7 @@ class Run:
                              "unicode-width / unicode-normalization as environment facts (display width, combining)",
                              "the reading of the property statement in spec/Props.tla and spec/Decl.tla"],
             "mc_runs": self.mc_runs, "tv_counters": dict(self.summary),
+            "apalache_inductive_invariant": self.apalache,
             "crashed_histories": len(self.crashes), "known_finding_hits": len(self.known_hits),
             "setup_mismatch": int(self.summary.get("setup_mismatch", 0)),
             "skipped_illformed": int(self.summary.get("skipped_illformed", 0)),
